@@ -133,7 +133,19 @@ def run_case(desc, ctx):
     else:
         wf = wf_custom
         edges = build.edges_list(m)
-        if mode == "attr":
+        if mode == "attr" and rng.random() < 0.4:
+            # "cost c everywhere, raised on some edges": a sparse attribute with a default value, in which only the raised entries are written
+            # (possibly none at all: the attribute then holds no explicit entry and every edge costs the default)
+            cdef = rng.choice([1.0, 0.5, 2.0]) * wunit
+            p_raised = rng.choice([0.0, 0.0, 0.1, 0.3])
+            raised = {(min(a, b), max(a, b)) for (a, b) in edges if rng.random() < p_raised}
+            ctx.cls("weights:sparse_attribute_with_default,%s" % ("no_entry_written" if not raised else "some_entries_written"))
+            wf = lambda a, b: cdef * (4.0 if (min(a, b), max(a, b)) in raised else 1.0)  # noqa
+            warg = m.edges.create_attribute("custom_w", float, default_value=cdef)
+            for i, (a, b) in enumerate(edges):
+                if (min(a, b), max(a, b)) in raised:
+                    warg[i] = wf(a, b)
+        elif mode == "attr":
             warg = m.edges.create_attribute("custom_w", float, dense=rng.random() < 0.5)
             for i, (a, b) in enumerate(edges):
                 warg[i] = wf(a, b)
